@@ -16,6 +16,7 @@ import (
 	"net/http"
 	"os"
 	"path/filepath"
+	"strings"
 	"sync"
 	"sync/atomic"
 	"time"
@@ -200,10 +201,18 @@ func (e *Srv) Close() error {
 // CloseNoInvariants stops the server without going through CheckInvariants'
 // panic (used when the harness wants to observe the invariant itself).
 func (e *Srv) Restart() error {
-	if err := e.Close(); err != nil {
+	if err := e.Close(); err != nil && !SlowShutdown(err) {
 		return fmt.Errorf("close: %v", err)
 	}
 	return e.Start()
+}
+
+// SlowShutdown reports whether a Close error is only the HTTP server's own
+// shutdown time limit (5 s in test builds) expiring, which happens on a
+// heavily loaded machine and says nothing about the state: everything else has
+// been stopped by then. Whether shutdown is bounded is C12's subject.
+func SlowShutdown(err error) bool {
+	return err != nil && strings.Contains(err.Error(), "error shutting down the http server")
 }
 
 func (e *Srv) url(path string) string {
